@@ -1,4 +1,4 @@
-_PATS = [("idn", "*IDN?", 6, "quick"), ("syserr", "SYSTem:ERRor[:NEXT]?", 8, "quick"), ("meas", "[:MEASure]:VOLTage:DC?", 8, "thorough"),
+_PATS = [("short1", "Ab[:Cd#]", 6, "quick"), ("idn", "*IDN?", 6, "quick"), ("syserr", "SYSTem:ERRor[:NEXT]?", 8, "quick"), ("meas", "[:MEASure]:VOLTage:DC?", 8, "thorough"),
          ("outp", "OUTPut#:FM[:MOD#]", 8, "quick"), ("tnum", "TEST#:NUMbers#", 8, "thorough"), ("choice", "TEST:CHOice?", 8, "thorough")]
 JOBS = []
 for tag, pat, hlen, tier in _PATS:
